@@ -839,6 +839,8 @@ class Prop(Check):
             return None
         if out.get("text") is None:
             return "model produced no text (fuel / dangling id)"
+        if out.get("domain") is not True:
+            return "case outside the domain of the theorems (unsafe class / attribute name or open object graph)"
         if k == "mm" and case["renderer"] == "puml":
             if sort_legend(out["text"]) != sort_legend(obs["text"]):
                 return "PlantUML text differs: " + first_diff(sort_legend(obs["text"]), sort_legend(out["text"]))
@@ -1148,5 +1150,8 @@ Prop.THEOREMS = [
     "Dot.C29_model_export_total",
     "Dot.C29_metamodel_dot_valid",
     "Dot.C29_plantuml_balanced",
+    "Dot.C29_model_export_checked",
+    "Dot.C29_metamodel_dot_checked",
+    "Dot.C29_plantuml_checked",
     "Dot.C29_unescaped_false",
 ]
